@@ -190,11 +190,24 @@ fn gen_query(r: &mut Rng, t0: &Tbl, t1: &Tbl) -> Query {
     // FROM
     let (mut from_sql, mut from_plan, cols): (String, String, Vec<Col>);
     let jk = r.below(10);
+    // a FROM item may be a sub-select with ORDER BY (same bag of rows; it is what lets the planner's
+    // order rules pick the merge join / the sort aggregation instead of the hash operators)
+    let sub = |t: &Tbl, keys: &[&str]| {
+        format!("(SELECT {} FROM {} ORDER BY {})", t.cols.iter().map(|c| c.0).collect::<Vec<_>>().join(", "), t.name, keys.join(", "))
+    };
+    let mut ordered_from: Option<Col> = None;
     if jk < 5 {
-        from_sql = t0.name.to_string();
+        if r.chance(1, 5) {
+            let oc = r.pick(&cols0[..4]).clone();
+            from_sql = sub(t0, &[oc.sql.as_str()]);
+            ordered_from = Some(oc);
+            shape += "single-sorted";
+        } else {
+            from_sql = t0.name.to_string();
+            shape += "single";
+        }
         from_plan = scan_plan(0, t0.cols.len());
         cols = cols0.clone();
-        shape += "single";
     } else {
         let (jt_sql, jt_plan) = *r.pick(&[("JOIN", "inner"), ("JOIN", "inner"), ("LEFT JOIN", "left_outer"), ("LEFT JOIN", "left_outer"), ("RIGHT JOIN", "right_outer"), ("FULL JOIN", "full_outer")]);
         // key pair
@@ -206,17 +219,28 @@ fn gen_query(r: &mut Rng, t0: &Tbl, t1: &Tbl) -> Query {
         };
         let mut on_sql = format!("{} = {}", cols0[l].sql, cols1[rr].sql);
         let mut on_plan = format!("(= {} {})", cols0[l].plan, cols1[rr].plan);
+        let mut lkeys = vec![cols0[l].sql.as_str()];
+        let mut rkeys = vec![cols1[rr].sql.as_str()];
         if r.chance(1, 5) {
             on_sql = format!("{on_sql} AND {} = {}", cols0[2].sql, cols1[2].sql);
             on_plan = format!("(and {on_plan} (= {} {}))", cols0[2].plan, cols1[2].plan);
+            lkeys.push(cols0[2].sql.as_str());
+            rkeys.push(cols1[2].sql.as_str());
             shape += "two-keys ";
         }
+        // both sides sorted on the join keys => the planner turns the hash join into a merge join
+        let sorted_inputs = r.chance(2, 5);
         if r.chance(1, 5) && jt_plan == "inner" {
             on_sql = format!("{on_sql} AND {} < {}", cols0[1].sql, cols1[1].sql);
             on_plan = format!("(and {on_plan} (< {} {}))", cols0[1].plan, cols1[1].plan);
             shape += "residual ";
         }
-        from_sql = format!("{} {jt_sql} {} ON {on_sql}", t0.name, t1.name);
+        from_sql = if sorted_inputs {
+            shape += "sorted-inputs ";
+            format!("{} {jt_sql} {} ON {on_sql}", sub(t0, &lkeys), sub(t1, &rkeys))
+        } else {
+            format!("{} {jt_sql} {} ON {on_sql}", t0.name, t1.name)
+        };
         from_plan = format!("(join {jt_plan} {on_plan} {} {})", scan_plan(0, t0.cols.len()), scan_plan(1, t1.cols.len()));
         cols = cols0.iter().chain(cols1.iter()).cloned().collect();
         shape += &format!("join:{jt_plan}:{kname}");
@@ -325,7 +349,9 @@ fn gen_query(r: &mut Rng, t0: &Tbl, t1: &Tbl) -> Query {
     } else {
         // aggregates, grouped or scalar
         let grouped = sk < 8;
-        let keys: Vec<Col> = if grouped {
+        let keys: Vec<Col> = if grouped && ordered_from.is_some() && r.chance(2, 3) {
+            vec![ordered_from.clone().unwrap()]
+        } else if grouped {
             let k = r.range(1, 2) as usize;
             let mut v: Vec<Col> = vec![];
             while v.len() < k {
